@@ -17,57 +17,262 @@ variable {G : Type} [AddCommGroup G]
 /-- the operations of the group -/
 def gops : Ops G := ⟨0, (· + ·), Neg.neg⟩
 
+@[simp] theorem gops_zero : (gops : Ops G).zero = 0 := rfl
+@[simp] theorem gops_add (a b : G) : (gops : Ops G).add a b = a + b := rfl
+@[simp] theorem gops_neg (a : G) : (gops : Ops G).neg a = -a := rfl
+@[simp] theorem gops_sub (a b : G) : (gops : Ops G).sub a b = a - b := by
+  simp [Ops.sub, sub_eq_add_neg]
+@[simp] theorem gops_dbl (a : G) : (gops : Ops G).dbl a = (2 : ℤ) • a := by
+  simp [Ops.dbl, two_zsmul]
+
 theorem dblN_spec (n : Nat) (x : G) : dblN gops n x = (2 ^ n : ℤ) • x := by
-  sorry
+  induction n generalizing x with
+  | zero => simp [dblN]
+  | succ n ih => rw [dblN, ih, gops_dbl, ← mul_zsmul, pow_succ]
+
+theorem mulSmall_succ (p : G) (i : Nat) : mulSmall gops p (i + 1) = ((i : ℤ) + 1) • p := by
+  induction i with
+  | zero => simp [mulSmall]
+  | succ n ih =>
+    rw [mulSmall, ih, gops_add]
+    conv_lhs => rw [← one_zsmul p, ← mul_zsmul, ← add_zsmul]
+    congr 1; push_cast; ring
+
+/-- Shamir's trick -/
+theorem mulSmall_spec (p : G) (i : Nat) : mulSmall gops p i = (i : ℤ) • p := by
+  cases i with
+  | zero => simp [mulSmall]
+  | succ n => rw [mulSmall_succ]; congr 1
+
+/-- fixed-base binary method -/
+theorem tabPow2_spec (p : G) (n : Nat) :
+    (tabPow2 gops p n).length = n ∧ ∀ i, i < n → (tabPow2 gops p n).getD i 0 = (2 ^ i : ℤ) • p := by
+  induction n generalizing p with
+  | zero => simp [tabPow2]
+  | succ n ih =>
+    obtain ⟨h1, h2⟩ := ih ((2 : ℤ) • p)
+    refine ⟨by simp [tabPow2, h1], ?_⟩
+    intro i hi
+    cases i with
+    | zero => simp [tabPow2]
+    | succ i =>
+      simp only [tabPow2, List.getD_cons_succ, gops_dbl]
+      rw [h2 i (by omega), ← mul_zsmul, pow_succ]
+
+theorem tabOdd_length (p : G) (n : Nat) : (tabOdd gops p n).length = n := by
+  induction n with
+  | zero => simp [tabOdd]
+  | succ n ih => simp [tabOdd, ih]
+
+theorem tabOdd_getElem? (p : G) (n : Nat) :
+    ∀ i, i < n → (tabOdd gops p n)[i]? = some ((2 * (i : ℤ) + 1) • p) := by
+  induction n with
+  | zero => intro i hi; omega
+  | succ n ih =>
+    intro i hi
+    have hlen := tabOdd_length p n
+    rw [tabOdd]
+    by_cases h : i < n
+    · rw [List.getElem?_append_left (by omega)]; exact ih i h
+    · have hin : i = n := by omega
+      subst hin
+      rw [List.getElem?_append_right (by omega)]
+      simp only [hlen, Nat.sub_self, List.getElem?_cons_zero, Option.some.injEq]
+      cases i with
+      | zero => simp [tabOdd]
+      | succ m =>
+        rw [List.getLast?_eq_getElem?, hlen, Nat.add_sub_cancel, ih m (by omega)]
+        simp only [gops_add, gops_dbl]
+        rw [← add_zsmul, show (2 * (m : ℤ) + 1 + 2) = 2 * ((m + 1 : ℕ) : ℤ) + 1 by push_cast; ring]
 
 /-- ep_tab: odd multiples -/
 theorem tabOdd_spec (p : G) (n : Nat) :
     (tabOdd gops p n).length = n ∧ ∀ i, i < n → (tabOdd gops p n).getD i 0 = (2 * (i : ℤ) + 1) • p := by
-  sorry
+  refine ⟨tabOdd_length p n, fun i hi => ?_⟩
+  rw [List.getD_eq_getElem?_getD, tabOdd_getElem? p n i hi]; rfl
+
+
+/-- one signed-digit step: add or subtract the table entry of |d| -/
+theorem signedStep (p : G) (tab : List G) (htab : ∀ i, i < tab.length → tab.getD i 0 = (2 * (i : ℤ) + 1) • p)
+    (r : G) (d : ℤ) (hd : d = 0 ∨ (d % 2 ≠ 0 ∧ d.natAbs < 2 * tab.length)) :
+    (if d > 0 then gops.add r (tab.getD (d.toNat / 2) 0)
+      else if d < 0 then gops.sub r (tab.getD ((-d).toNat / 2) 0) else r) = r + d • p := by
+  rcases hd with rfl | ⟨hodd, hb⟩
+  · simp
+  · by_cases hpos : d > 0
+    · rw [if_pos hpos, gops_add, htab _ (by omega)]
+      congr 2; omega
+    · have hneg : d < 0 := by omega
+      rw [if_neg hpos, if_pos hneg, gops_sub, htab _ (by omega), sub_eq_add_neg, ← neg_zsmul]
+      congr 2; omega
 
 /-- signed-digit left-to-right loop (w-NAF with table, binary NAF with table [P]) -/
 theorem mulSigned_spec (p : G) (tab : List G) (htab : ∀ i, i < tab.length → tab.getD i 0 = (2 * (i : ℤ) + 1) • p)
     (ds : List Int) (hd : ∀ d ∈ ds, d = 0 ∨ (d % 2 ≠ 0 ∧ d.natAbs < 2 * tab.length)) :
     mulSigned gops tab 0 ds = (Rec.eval 1 ds) • p := by
-  sorry
-
-/-- sliding windows -/
-theorem mulSlide_spec (p : G) (tab : List G) (htab : ∀ i, i < tab.length → tab.getD i 0 = (2 * (i : ℤ) + 1) • p)
-    (win : List Int) (hd : ∀ d ∈ win, d = 0 ∨ (d % 2 = 1 ∧ 0 < d ∧ d.toNat < 2 * tab.length)) :
-    mulSlide gops tab 0 win = (Rec.evalSlw win) • p := by
-  sorry
-
-/-- value of a bit string, most significant first -/
-def bitsVal (bs : List Bool) : ℤ := bs.foldl (fun acc b => 2 * acc + (if b then 1 else 0)) 0
-
-/-- Montgomery ladder: with the implicit leading one, [1 b_{m-1} … b_0]·P -/
-theorem mulLadder_spec (p : G) (bits : List Bool) :
-    mulLadder gops p bits = (2 ^ bits.length + bitsVal bits : ℤ) • p := by
-  sorry
+  unfold mulSigned
+  induction ds with
+  | nil => simp [Rec.eval]
+  | cons d ds ih =>
+    rw [List.reverse_cons, List.foldl_append, ih (fun x hx => hd x (List.mem_cons_of_mem _ hx))]
+    simp only [List.foldl_cons, List.foldl_nil]
+    rw [signedStep p tab htab _ d (hd d List.mem_cons_self), gops_dbl, ← mul_zsmul, ← add_zsmul,
+      Rec.eval_cons]
+    congr 1; ring
 
 /-- regular recoding loop with the parity correction -/
 theorem mulReg_spec (p : G) (tab : List G) (htab : ∀ i, i < tab.length → tab.getD i 0 = (2 * (i : ℤ) + 1) • p)
     (w : Nat) (reg : List Int) (hd : ∀ d ∈ reg, d % 2 ≠ 0 ∧ d.natAbs < 2 * tab.length) (even : Bool) :
     mulReg gops tab 0 w reg even p = (Rec.eval (w - 1) reg - (if even then 1 else 0)) • p := by
-  sorry
+  have key : reg.reverse.foldl (fun r d =>
+      let r := dblN gops (w - 1) r
+      let u := tab.getD (d.natAbs / 2) 0
+      gops.add r (if d < 0 then gops.neg u else u)) gops.zero = (Rec.eval (w - 1) reg) • p := by
+    induction reg with
+    | nil => simp [Rec.eval]
+    | cons d ds ih =>
+      rw [List.reverse_cons, List.foldl_append, ih (fun x hx => hd x (List.mem_cons_of_mem _ hx))]
+      obtain ⟨hodd, hb⟩ := hd d List.mem_cons_self
+      simp only [List.foldl_cons, List.foldl_nil, dblN_spec, gops_add, gops_neg]
+      rw [htab _ (by omega), Rec.eval_cons, ← mul_zsmul]
+      by_cases hneg : d < 0
+      · rw [if_pos hneg, ← neg_zsmul, ← add_zsmul]; congr 1
+        have : (2 * ((d.natAbs / 2 : ℕ) : ℤ) + 1) = -d := by omega
+        rw [this]; ring
+      · rw [if_neg hneg, ← add_zsmul]; congr 1
+        have : (2 * ((d.natAbs / 2 : ℕ) : ℤ) + 1) = d := by omega
+        rw [this]; ring
+  unfold mulReg
+  simp only [key]
+  cases even
+  · simp
+  · simp [sub_eq_add_neg, add_zsmul]
 
-/-- fixed-base binary method -/
-theorem tabPow2_spec (p : G) (n : Nat) :
-    (tabPow2 gops p n).length = n ∧ ∀ i, i < n → (tabPow2 gops p n).getD i 0 = (2 ^ i : ℤ) • p := by
-  sorry
+/-- sliding windows -/
+theorem mulSlide_spec (p : G) (tab : List G) (htab : ∀ i, i < tab.length → tab.getD i 0 = (2 * (i : ℤ) + 1) • p)
+    (win : List Int) (hd : ∀ d ∈ win, d = 0 ∨ (d % 2 = 1 ∧ 0 < d ∧ d.toNat < 2 * tab.length)) :
+    mulSlide gops tab 0 win = (Rec.evalSlw win) • p := by
+  unfold mulSlide Rec.evalSlw
+  suffices h : ∀ (r : G) (acc : ℤ), r = acc • p →
+      win.foldl (fun r d => if d = 0 then gops.dbl r
+        else gops.add (dblN gops (bitLenNat d.toNat) r) (tab.getD (d.toNat / 2) 0)) r
+      = (win.foldl (fun acc d => if d = 0 then 2 * acc else acc * 2 ^ (Rec.bitLen d.toNat) + d) acc) • p by
+    exact h _ 0 (by simp)
+  induction win with
+  | nil => intro r acc h; simpa using h
+  | cons d ds ih =>
+    intro r acc h
+    simp only [List.foldl_cons]
+    apply ih (fun x hx => hd x (List.mem_cons_of_mem _ hx))
+    rcases hd d List.mem_cons_self with rfl | ⟨hodd, hpos, hb⟩
+    · simp [h, mul_zsmul]
+    · have hne : d ≠ 0 := by omega
+      rw [if_neg hne, if_neg hne, gops_add, dblN_spec, htab _ (by omega), h, ← mul_zsmul, ← add_zsmul]
+      have : (2 * ((d.toNat / 2 : ℕ) : ℤ) + 1) = d := by omega
+      rw [this]
+      have : bitLenNat d.toNat = Rec.bitLen d.toNat := rfl
+      rw [this]; congr 1; ring
+
+/-- value of a bit string, most significant first -/
+def bitsVal (bs : List Bool) : ℤ := bs.foldl (fun acc b => 2 * acc + (if b then 1 else 0)) 0
+
+theorem bitsVal_foldl (bs : List Bool) (a : ℤ) :
+    bs.foldl (fun acc b => 2 * acc + (if b then 1 else 0)) a = 2 ^ bs.length * a + bitsVal bs := by
+  unfold bitsVal
+  induction bs generalizing a with
+  | nil => simp
+  | cons b bs ih =>
+    simp only [List.foldl_cons, List.length_cons]
+    rw [ih, ih (2 * 0 + _)]
+    ring
+
+/-- Montgomery ladder: with the implicit leading one, [1 b_{m-1} … b_0]·P -/
+theorem mulLadder_spec (p : G) (bits : List Bool) :
+    mulLadder gops p bits = (2 ^ bits.length + bitsVal bits : ℤ) • p := by
+  unfold mulLadder
+  suffices h : ∀ (v : ℤ) (t : G × G), t = (v • p, (v + 1) • p) →
+      (bits.foldl (fun (t : G × G) b =>
+        if b then (gops.add t.1 t.2, gops.dbl t.2) else (gops.dbl t.1, gops.add t.1 t.2)) t).1
+      = (2 ^ bits.length * v + bitsVal bits) • p by
+    have := h 1 (p, gops.dbl p) (by simp [two_zsmul])
+    simpa using this
+  induction bits with
+  | nil => intro v t h; simp [h, bitsVal]
+  | cons b bs ih =>
+    intro v t h
+    simp only [List.foldl_cons, List.length_cons]
+    rw [ih (2 * v + (if b then 1 else 0))]
+    · congr 1
+      rw [show bitsVal (b :: bs) = bs.foldl (fun acc b => 2 * acc + (if b then 1 else 0)) (2 * 0 + (if b then 1 else 0)) from rfl,
+        bitsVal_foldl]
+      ring
+    · subst h
+      cases b
+      · simp only [gops_add, gops_dbl, Bool.false_eq_true, if_false, ← mul_zsmul, ← add_zsmul]
+        congr 2 <;> ring
+      · simp only [gops_add, gops_dbl, if_true, ← mul_zsmul, ← add_zsmul]
+        congr 2 <;> ring
+
+theorem mulFixBasic_aux (p : G) (tab : List G) (htab : ∀ i, i < tab.length → tab.getD i 0 = (2 ^ i : ℤ) • p)
+    (k m : Nat) (hm : m ≤ tab.length) :
+    (List.range m).foldl (fun r i => if (k >>> i) % 2 = 1 then gops.add r (tab.getD i 0) else r) gops.zero
+      = ((k % 2 ^ m : ℕ) : ℤ) • p := by
+  induction m with
+  | zero => simp [Nat.mod_one]
+  | succ m ih =>
+    rw [List.range_succ, List.foldl_append, ih (by omega)]
+    simp only [List.foldl_cons, List.foldl_nil]
+    rw [Nat.mod_pow_succ, Nat.shiftRight_eq_div_pow, htab m (by omega)]
+    rcases Nat.mod_two_eq_zero_or_one (k / 2 ^ m) with h | h
+    · simp [h]
+    · simp only [h, if_true, gops_add, ← add_zsmul]; congr 1; push_cast; ring
 
 theorem mulFixBasic_spec (p : G) (n k : Nat) (hk : k < 2 ^ n) :
     mulFixBasic gops (tabPow2 gops p n) 0 k = (k : ℤ) • p := by
-  sorry
+  obtain ⟨hlen, htab⟩ := tabPow2_spec p n
+  unfold mulFixBasic
+  rw [mulFixBasic_aux p _ (by rw [hlen]; exact htab) k _ (le_refl _), hlen, Nat.mod_eq_of_lt hk]
 
-/-- Shamir's trick -/
-theorem mulSmall_spec (p : G) (i : Nat) : mulSmall gops p i = (i : ℤ) • p := by
-  sorry
 
-theorem simTrick_spec (p q : G) (w : Nat) (w0 w1 : List Int)
-    (h0 : ∀ d ∈ w0, 0 ≤ d ∧ d < 2 ^ w) (h1 : ∀ d ∈ w1, 0 ≤ d ∧ d < 2 ^ w) :
-    simTrick gops (tabTrick gops p q w) 0 w w0 w1 = (Rec.eval w w0) • p + (Rec.eval w w1) • q := by
-  sorry
+/-! ### loops over two digit strings indexed from the top -/
+
+theorem getD_succ_tail (a : List ℤ) (i : Nat) : a.getD (i + 1) 0 = a.tail.getD i 0 := by
+  cases a <;> simp
+
+theorem eval_map_head_tail (s : Nat) (va : ℤ → ℤ) (hva : va 0 = 0) (a : List ℤ) :
+    Rec.eval s (a.map va) = va (a.getD 0 0) + 2 ^ s * Rec.eval s (a.tail.map va) := by
+  cases a <;> simp [Rec.eval, hva]
+
+theorem pairLoop_spec (p q : G) (s : Nat) (F : G → ℤ → ℤ → G) (va vb : ℤ → ℤ) (Pa Pb : ℤ → Prop)
+    (ha0 : Pa 0) (hb0 : Pb 0) (hva : va 0 = 0) (hvb : vb 0 = 0)
+    (hF : ∀ x y u v, Pa u → Pb v →
+      F (x • p + y • q) u v = (va u + 2 ^ s * x) • p + (vb v + 2 ^ s * y) • q) :
+    ∀ (n : Nat) (a b : List ℤ), a.length ≤ n → b.length ≤ n → (∀ d ∈ a, Pa d) → (∀ d ∈ b, Pb d) →
+      (List.range n).reverse.foldl (fun r i => F r (a.getD i 0) (b.getD i 0)) 0
+        = Rec.eval s (a.map va) • p + Rec.eval s (b.map vb) • q := by
+  intro n
+  induction n with
+  | zero =>
+    intro a b ha hb _ _
+    have ha' : a = [] := List.length_eq_zero_iff.1 (by omega)
+    have hb' : b = [] := List.length_eq_zero_iff.1 (by omega)
+    subst ha' hb'
+    simp [Rec.eval]
+  | succ n ih =>
+    intro a b ha hb hPa hPb
+    rw [List.range_succ_eq_map, List.reverse_cons, List.foldl_append, ← List.map_reverse, List.foldl_map]
+    simp only [Nat.succ_eq_add_one, getD_succ_tail, List.foldl_cons, List.foldl_nil]
+    rw [ih a.tail b.tail (by rw [List.length_tail]; omega) (by rw [List.length_tail]; omega)
+      (fun d hd => hPa d (List.mem_of_mem_tail hd)) (fun d hd => hPb d (List.mem_of_mem_tail hd))]
+    have h1 : Pa (a.getD 0 0) := by
+      cases a with
+      | nil => simpa using ha0
+      | cons x t => simpa using hPa x List.mem_cons_self
+    have h2 : Pb (b.getD 0 0) := by
+      cases b with
+      | nil => simpa using hb0
+      | cons x t => simpa using hPb x List.mem_cons_self
+    rw [hF _ _ _ _ h1 h2, eval_map_head_tail s va hva a, eval_map_head_tail s vb hvb b]
 
 /-- interleaving -/
 theorem simInter_spec (p q : G) (tab0 tab1 : List G)
@@ -76,11 +281,158 @@ theorem simInter_spec (p q : G) (tab0 tab1 : List G)
     (n0 n1 : List Int) (h0 : ∀ d ∈ n0, d = 0 ∨ (d % 2 ≠ 0 ∧ d.natAbs < 2 * tab0.length))
     (h1 : ∀ d ∈ n1, d = 0 ∨ (d % 2 ≠ 0 ∧ d.natAbs < 2 * tab1.length)) :
     simInter gops tab0 tab1 0 n0 n1 = (Rec.eval 1 n0) • p + (Rec.eval 1 n1) • q := by
-  sorry
+  have := pairLoop_spec p q 1
+    (fun r u v =>
+      let r := gops.dbl r
+      let step := fun (r : G) (tab : List G) (d : Int) =>
+        if d > 0 then gops.add r (tab.getD (d.toNat / 2) 0)
+        else if d < 0 then gops.sub r (tab.getD ((-d).toNat / 2) 0) else r
+      step (step r tab0 u) tab1 v) id id
+    (fun d => d = 0 ∨ (d % 2 ≠ 0 ∧ d.natAbs < 2 * tab0.length))
+    (fun d => d = 0 ∨ (d % 2 ≠ 0 ∧ d.natAbs < 2 * tab1.length))
+    (Or.inl rfl) (Or.inl rfl) rfl rfl
+    (by
+      intro x y u v hu hv
+      simp only [id]
+      rw [signedStep p tab0 ht0 _ u hu, signedStep q tab1 ht1 _ v hv, gops_dbl]
+      simp only [zsmul_add, add_zsmul, mul_zsmul, pow_one]
+      abel)
+    (max n0.length n1.length) n0 n1 (le_max_left _ _) (le_max_right _ _) h0 h1
+  simpa [simInter] using this
 
 /-- joint sparse form -/
 theorem simJoint_spec (p q : G) (j0 j1 : List Int) :
     simJoint gops p q j0 j1 = (Rec.eval 1 (j0.map Int.sign)) • p + (Rec.eval 1 (j1.map Int.sign)) • q := by
-  sorry
+  have hs : ∀ (r t : G) (u : ℤ), (if u > 0 then gops.add r t else if u < 0 then gops.sub r t else r)
+      = r + u.sign • t := by
+    intro r t u
+    rcases lt_trichotomy u 0 with h | h | h
+    · rw [if_neg (by omega), if_pos h, Int.sign_eq_neg_one_of_neg h]; simp [sub_eq_add_neg]
+    · subst h; simp
+    · rw [if_pos h, Int.sign_eq_one_of_pos h]; simp
+  have := pairLoop_spec p q 1
+    (fun r u0 u1 =>
+      let r := gops.dbl r
+      let r := if u0 > 0 then gops.add r p else if u0 < 0 then gops.sub r p else r
+      if u1 > 0 then gops.add r q else if u1 < 0 then gops.sub r q else r) Int.sign Int.sign
+    (fun _ => True) (fun _ => True) trivial trivial rfl rfl
+    (by
+      intro x y u v _ _
+      simp only [hs, gops_dbl]
+      simp only [zsmul_add, add_zsmul, mul_zsmul, pow_one]
+      abel)
+    (max j0.length j1.length) j0 j1 (le_max_left _ _) (le_max_right _ _) (fun _ _ => trivial) (fun _ _ => trivial)
+  simpa [simJoint] using this
+
+theorem flatMap_range_length {α : Type} (b : Nat) (f : Nat → Nat → α) (a : Nat) :
+    ((List.range a).flatMap fun i => (List.range b).map (f i)).length = a * b := by
+  induction a with
+  | zero => simp
+  | succ a ih => rw [List.range_succ, List.flatMap_append, List.length_append, ih]; simp [Nat.succ_mul]
+
+theorem flatMap_range_getElem? {α : Type} (b : Nat) (f : Nat → Nat → α) (a : Nat) :
+    ∀ i j, i < a → j < b →
+      ((List.range a).flatMap fun i => (List.range b).map (f i))[i * b + j]? = some (f i j) := by
+  induction a with
+  | zero => intro i j hi; omega
+  | succ a ih =>
+    intro i j hi hj
+    have hlen := flatMap_range_length b f a
+    rw [List.range_succ, List.flatMap_append]
+    by_cases h : i < a
+    · have : i * b + j < a * b := by
+        have : (i + 1) * b ≤ a * b := Nat.mul_le_mul_right b h
+        rw [Nat.succ_mul] at this; omega
+      rw [List.getElem?_append_left (by omega)]
+      exact ih i j h hj
+    · have hia : i = a := by omega
+      subst hia
+      rw [List.getElem?_append_right (by omega), hlen]
+      simp [hj]
+
+theorem tabTrick_getD (p q : G) (w : Nat) (i j : Nat) (hi : i < 2 ^ w) (hj : j < 2 ^ w) :
+    (tabTrick gops p q w).getD ((i <<< w) + j) 0 = (i : ℤ) • p + (j : ℤ) • q := by
+  unfold tabTrick
+  rw [List.getD_eq_getElem?_getD, Nat.shiftLeft_eq,
+    flatMap_range_getElem? (2 ^ w) (fun i j => gops.add (mulSmall gops p i) (mulSmall gops q j)) (2 ^ w) i j hi hj]
+  simp [mulSmall_spec]
+
+theorem simTrick_spec (p q : G) (w : Nat) (w0 w1 : List Int)
+    (h0 : ∀ d ∈ w0, 0 ≤ d ∧ d < 2 ^ w) (h1 : ∀ d ∈ w1, 0 ≤ d ∧ d < 2 ^ w) :
+    simTrick gops (tabTrick gops p q w) 0 w w0 w1 = (Rec.eval w w0) • p + (Rec.eval w w1) • q := by
+  have hpw : (0 : ℤ) < 2 ^ w := by positivity
+  have := pairLoop_spec p q w
+    (fun r u v =>
+      let r := dblN gops w r
+      gops.add r ((tabTrick gops p q w).getD ((u.toNat <<< w) + v.toNat) 0)) id id
+    (fun d => 0 ≤ d ∧ d < 2 ^ w) (fun d => 0 ≤ d ∧ d < 2 ^ w)
+    ⟨le_refl _, hpw⟩ ⟨le_refl _, hpw⟩ rfl rfl
+    (by
+      intro x y u v hu hv
+      have hu' : u.toNat < 2 ^ w := by
+        have := hu.2; zify; rw [Int.toNat_of_nonneg hu.1]; exact_mod_cast this
+      have hv' : v.toNat < 2 ^ w := by
+        have := hv.2; zify; rw [Int.toNat_of_nonneg hv.1]; exact_mod_cast this
+      simp only [id, dblN_spec, gops_add]
+      rw [tabTrick_getD p q w _ _ hu' hv', Int.toNat_of_nonneg hu.1, Int.toNat_of_nonneg hv.1]
+      simp only [zsmul_add, add_zsmul, mul_zsmul]
+      abel)
+    (max w0.length w1.length) w0 w1 (le_max_left _ _) (le_max_right _ _) h0 h1
+  simpa [simTrick] using this
+
+
+/-! ### the regular recoding ends with the digit 1 -/
+
+theorem recRegLoop_carry_odd (w : Nat) (hw : 2 ≤ w) : ∀ (l t : Nat) (acc : List Int),
+    t % 2 = 1 → (Rec.recRegLoop w l t acc).2 % 2 = 1 := by
+  intro l
+  induction l with
+  | zero => intro t acc ht; simpa [Rec.recRegLoop] using ht
+  | succ l ih =>
+    intro t acc ht
+    have hu : (if w = 2 then ((t % 4 : Nat) : Int) - 2 else ((t % 2 ^ w : Nat) : Int) - 2 ^ (w - 1))
+        = ((t % 2 ^ w : Nat) : Int) - 2 ^ (w - 1) := by
+      split
+      · subst w; rfl
+      · rfl
+    obtain ⟨_, _, h3, _⟩ := Rec.reg_step w t hw ht
+    simp only [Rec.recRegLoop, hu]
+    rw [h3]
+    exact ih _ _ (by omega)
+
+/-- all digits of the regular recoding of an odd k < 2^n are odd and small: the final carry is 1 -/
+theorem recReg_digits (cap k n w : Nat) (hw : 2 ≤ w) (hodd : k % 2 = 1) (hk : k < 2 ^ n) (ds : List Int)
+    (h : Rec.recReg cap k n w = some ds) :
+    Rec.eval (w - 1) ds = k ∧ ∀ d ∈ ds, d % 2 ≠ 0 ∧ d.natAbs < 2 ^ (w - 1) := by
+  obtain ⟨hv, hlen, hd, hlast, _⟩ := Rec.recReg_spec cap k n w hw hodd hk ds h
+  refine ⟨hv, ?_⟩
+  have hc := recRegLoop_carry_odd w hw ((n + (w - 1) - 1) / (w - 1)) k [] hodd
+  have hl := Rec.recRegLoop_length w ((n + (w - 1) - 1) / (w - 1)) k []
+  unfold Rec.recReg at h
+  simp only at h
+  split at h
+  · exact absurd h (by simp)
+  simp only [Option.some.injEq] at h
+  generalize Rec.recRegLoop w ((n + (w - 1) - 1) / (w - 1)) k [] = res at h hc hl
+  obtain ⟨ds', t'⟩ := res
+  simp only at h hc hl
+  subst h
+  rw [List.getLast?_concat] at hlast
+  have ht' : (t' : ℤ) = 1 := by
+    rcases hlast with h0 | h1
+    · simp only [Option.some.injEq] at h0; omega
+    · simpa using h1
+  rw [← show ds'.length = (n + (w - 1) - 1) / (w - 1) by simpa using hl, List.take_left] at hd
+  intro d hdm
+  rcases List.mem_append.1 hdm with hdm | hdm
+  · exact hd d hdm
+  · simp only [List.mem_singleton] at hdm
+    rw [hdm, ht']
+    refine ⟨by decide, ?_⟩
+    have : 2 ^ 1 ≤ 2 ^ (w - 1) := Nat.pow_le_pow_right (by decide) (by omega)
+    rw [Int.natAbs_one]; omega
+
+theorem zsmul_emod (p : G) (n : ℤ) (hn : n • p = 0) (k : ℤ) : (k % n) • p = k • p := by
+  conv_rhs => rw [← Int.emod_add_mul_ediv k n, add_zsmul, mul_comm, mul_zsmul, hn, zsmul_zero, add_zero]
 
 end Relic.Model.MulAlg
